@@ -163,6 +163,38 @@ def one_float(ctx: Ctx, spec, dtype, Jt, family):
             return
 
 
+def many_zero_columns(ctx: Ctx, spec):
+    """a small single-precision Jacobian of moderate condition number next to tens of thousands of parameters that
+    influence nothing: the update of the real parameters must not notice them (anything that scales a threshold with
+    the number of columns does)"""
+    rng = ctx.rng
+    m = max(3, spec.min_rows)
+    sig = [Fr(20), Fr(5)] + [Fr(1)] * (m - 2)
+    J, _, _, _ = m_svd(rng, m, m, sigmas=sig)
+    Jt = to_tensor(J, torch.float32)
+    extra = rng.choice([50000, 80000])
+    pos = rng.choice([0, m, rng.randint(0, m)])
+    A = spec.make(m, torch.float32, [rng.choice([1, 2, 3]) for _ in range(m)] if spec.pref == "weights" else None)
+    seed = rng.randrange(10 ** 6)
+    st, x = attempt(A, Jt, seed)
+    Jz = torch.cat([Jt[:, :pos], torch.zeros(m, extra, dtype=torch.float32), Jt[:, pos:]], dim=1)
+    st2, y = attempt(A, Jz, seed)
+    ctx.case((spec.name, "many-zero-columns", str(J), extra, pos), nontrivial=True,
+             sample={"aggregator": spec.name, "family": "many-zero-columns", "shape": [m, m + extra]})
+    ctx.count("float_family", f"{spec.name}:many-zero-columns")
+    rp = {"aggregator": spec.name, "family": "many-zero-columns", "J": [[str(v) for v in r] for r in J], "zero_columns": extra,
+          "inserted_at": pos, "dtype": "torch.float32", "torch_seed": seed}
+    if st != "ok" or st2 != "ok":
+        ctx.violation(f"{spec.name} raised {x if st != 'ok' else y} ({m}x{m} matrix / with {extra} zero columns)", rp)
+        return
+    _FLOOR[0] = float(Jt.abs().max())
+    keep = torch.cat([y[:pos], y[pos + extra:]])
+    tol = 2e-2 if (spec.pinv or spec.solver) else 5e-3
+    if relerr(keep, x) > tol or float(y[pos:pos + extra].abs().max()) > tol * _FLOOR[0]:
+        ctx.violation(f"{spec.name}: appending {extra} all-zero columns to a {m}x{m} matrix (cond 20) changes the update of the "
+                      f"other columns by {relerr(keep, x):.3e} (relative)", rp)
+
+
 def float_families(ctx: Ctx, spec, dtype):
     rng = ctx.rng
     g = torch.Generator().manual_seed(rng.randrange(2 ** 31))
@@ -189,6 +221,8 @@ def main(ctx: Ctx):
             if spec.solver and i % 3:
                 continue
             one(ctx, spec, torch.float64 if i % 3 else torch.float32)
+            if i % 6 == 0 and spec.name != "GradDrop":
+                many_zero_columns(ctx, spec)
             if i % 2 == 0:
                 float_families(ctx, spec, torch.float32 if i % 4 == 0 else torch.float64)
     return ctx.finish(
